@@ -95,14 +95,15 @@ fn c08_dump(args: &Args) {
 fn main() {
     vmon::panics::install();
     let args = parse_args();
-    match args.cmd.as_str() {
+    let r = std::panic::catch_unwind(|| match args.cmd.as_str() {
         "c08-dump" => c08_dump(&args),
         "c07-zoo-serve" => zoo::serve(&args.doc, args.workers),
         "c07-zoo-doc" => {
             println!("{}", serde_json::to_string_pretty(&zoo::document()).unwrap());
         }
         _ => usage(),
-    }
+    });
+    let _ = r;
     let unexpected = vmon::panics::take_unexpected();
     if !unexpected.is_empty() {
         for p in unexpected {
